@@ -4,8 +4,10 @@ with malloc/free/realloc/calloc redirected to the vf_* functions of drv/seam.h,
 so that allocations and releases of the library become observable events.
 Helper next to vlib (append-only rule: nothing in vlib is changed).
 """
+import json
 import os
 import subprocess
+import uuid
 
 import vlib
 
@@ -80,7 +82,41 @@ def run_parallel(exe, behaviours, nproc=6, timeout=900, env=None):
         return "\n".join(lines) + "\n"
 
     def work(lo):
-        return vlib.run_driver(exe, script(lo, min(lo + step, n)), timeout=timeout, env=e)[0]
+        # stdout goes to a file, not a pipe: a driver must never wait for this (busy) Python process to
+        # drain its output -- a blocked write would run into the per-behaviour alarm and look like a hang
+        tdir = vlib.ensure(os.path.join(vlib.WORK, "drvout"))
+        base = os.path.join(tdir, "%s-%d-%s" % (os.path.basename(exe), os.getpid(), uuid.uuid4().hex[:12]))
+        env = dict(os.environ)
+        env["ASAN_OPTIONS"] = vlib.ASAN_ENV
+        env["UBSAN_OPTIONS"] = "print_stacktrace=1"
+        env.update(e)
+        try:
+            with open(base + ".in", "w") as fi:
+                fi.write(script(lo, min(lo + step, n)))
+            with open(base + ".in") as fi, open(base + ".out", "w") as fo, open(base + ".err", "w") as fe:
+                try:
+                    r = subprocess.run([exe], stdin=fi, stdout=fo, stderr=fe, timeout=timeout, env=env)
+                except subprocess.TimeoutExpired:
+                    raise vlib.MachineryError("driver %s timed out after %ss" % (exe, timeout))
+            if r.returncode != 0:
+                raise vlib.MachineryError("driver %s exited %s\n%s" % (exe, r.returncode, open(base + ".err").read()[-2000:]))
+            recs = []
+            with open(base + ".out", errors="replace") as fo:
+                for ln in fo:
+                    ln = ln.strip()
+                    if not ln.startswith("{"):
+                        continue
+                    try:
+                        recs.append(json.loads(ln))
+                    except ValueError:
+                        recs.append({"a": "Garbled", "raw": ln[:200]})
+            return recs
+        finally:
+            for ext in (".in", ".out", ".err"):
+                try:
+                    os.unlink(base + ext)
+                except OSError:
+                    pass
 
     with ThreadPoolExecutor(max_workers=nproc) as ex:
         parts = list(ex.map(work, range(0, n, step)))
@@ -172,4 +208,38 @@ def repo_c_files(*dirs, exclude=()):
             rel = f[len(vlib.REPO) + 1:]
             if rel not in exclude and os.path.basename(rel) not in exclude:
                 out.append(rel)
+    return out
+
+
+def recheck_transient(exe, behaviours, mismatches, match, kinds=("Hang",)):
+    """A hang (or another listed record kind) may be the machine, not the code: run such a behaviour once more
+    on its own and keep the mismatch only if it shows again (with whatever the second run reports)."""
+    out = []
+    for mm in mismatches:
+        if mm["why"] not in kinds:
+            out.append(mm)
+            continue
+        recs, _ = vlib.run_driver(exe, vlib.to_script([behaviours[mm["b"]]]), timeout=300,
+                                  env={"ASAN_OPTIONS": vlib.ASAN_ENV + ":symbolize=0"})
+        again = vlib.compare([behaviours[mm["b"]]], recs, match)
+        for a in again:
+            a["b"] = mm["b"]
+            out.append(a)
+    return out
+
+
+def rerun_hung(exe, behaviours, recs):
+    """Records of behaviours that ended in a Hang record are replaced by those of a second run of that
+    behaviour on its own (a per-behaviour alarm can fire on an overloaded machine)."""
+    hung = sorted(set(r.get("b") for r in recs if r.get("a") == "Hang"))
+    if not hung:
+        return recs
+    out = [r for r in recs if r.get("b") not in hung]
+    for b in hung[:20]:
+        rs, _ = vlib.run_driver(exe, vlib.to_script([behaviours[b]]), timeout=300,
+                                env={"ASAN_OPTIONS": vlib.ASAN_ENV + ":symbolize=0"})
+        for r in rs:
+            r["b"] = b
+        out += rs
+    vlib.log("re-ran %d behaviour(s) that hit the alarm" % len(hung[:20]))
     return out
